@@ -243,7 +243,10 @@ func (selector *CoinSelector) SortedSearch() ([]*Utxo, uint64, uint64) {
 				pass = 1
 			}
 		case 1:
-			feeReplaced, lr := selector.getLossRatio(append(selection[:len(selection)-1:cap(selection)-1], u))
+			candidate := make([]*Utxo, len(selection))
+			copy(candidate, selection)
+			candidate[len(candidate)-1] = u
+			feeReplaced, lr := selector.getLossRatio(candidate)
 			if sumTemp := sum - selection[len(selection)-1].Value + u.Value; (sumTemp == selector.target ||
 				sumTemp >= selector.target+selector.mc) && lr < selector.maxP {
 				fee, sum = feeReplaced, sumTemp
